@@ -348,3 +348,33 @@ def set_order_grid_cases(ctx, every=1, universal_only=False):
             except Exception:
                 ctx.stats['set-order-grid-unbuildable'] += 1
     return out
+
+
+def empty_member_grid_cases(ctx, every=1):
+    """Records with a constructed member that is EMPTY (SEQUENCE OF / SET OF without elements, a nested SEQUENCE / SET all
+    of whose members are OPTIONAL and absent) or not, mandatory or OPTIONAL-and-present, before / between / after a simple
+    member that is mandatory, OPTIONAL present or OPTIONAL absent: the places where "leave out when empty" logic lives."""
+    ys = [(('seqof', ('int',)), ('list', []), ('list', [('i', 1)])),
+          (('setof', ('octs',)), ('list', []), ('list', [('o', b'a')])),
+          (('seq', [('opt', ('int',))]), ('rec', [None]), ('rec', [('i', 5)])),
+          (('set', [('opt', ('bool',)), ('opt', ('null',))]), ('rec', [None, None]), ('rec', [('b', True), None]))]
+    xs = [('opt', ('i', 2)), ('opt', None), ('req', ('i', 2))]
+    out, i = [], 0
+    for kind in ('seq', 'set'):
+        for (Ty, empty, full) in ys:
+            for yv in (empty, full):
+                for yp in ('req', 'opt'):
+                    for (xp, xv) in xs:
+                        for order in ('xyz', 'yxz', 'xzy'):
+                            i += 1
+                            if every > 1 and (i + ctx.seed) % every:
+                                continue
+                            m = {'x': ((xp, ('imp', (128, 0, 0), ('int',))), xv), 'y': ((yp, Ty), yv), 'z': (('req', ('octs',)), ('o', b'x'))}
+                            fields = [m[k][0] for k in order]
+                            vals = [m[k][1] for k in order]
+                            try:
+                                out.append(Case((kind, fields), ('rec', vals)))
+                                ctx.stats['empty-member-grid:' + kind] += 1
+                            except Exception:
+                                ctx.stats['empty-member-grid-unbuildable'] += 1
+    return out
